@@ -127,7 +127,7 @@ def tokenize(line):
             else:
                 while j < n and line[j] in b'0123456789':
                     j += 1
-                v = int(line[i:j])
+                v = dec_int(line[i:j])
             if j < n and line[j] == ord('w') and (
                     j + 1 >= n or line[j + 1] not in NAME_CHARS):
                 toks.append(('wint', v))
@@ -365,6 +365,18 @@ def _bind_argv(spec_toks, argv):
             bound[name] = argv[k]
             k += 1
     return bound
+
+
+def dec_int(digits):
+    """int() of a decimal digit string of any length, without relying on the interpreter-wide
+    sys.int_max_str_digits setting (which the compiler under test may or may not have changed)."""
+    if len(digits) <= 4000:
+        return int(digits)
+    v = 0
+    for k in range(0, len(digits), 4000):
+        chunk = digits[k:k + 4000]
+        v = v * 10 ** len(chunk) + int(chunk)
+    return v
 
 
 def _parse_int_arg(s, name):
